@@ -80,6 +80,10 @@ func (sp SkipPredicates) Add(podID common_info.PodID, predicateName k8s_internal
 	sp[podID][predicateName] = true
 }
 
+func (sp SkipPredicates) Remove(podID common_info.PodID, predicateName k8s_internal.PredicateName) {
+	delete(sp[podID], predicateName)
+}
+
 func (sp SkipPredicates) ShouldSKip(podID common_info.PodID, predicateName k8s_internal.PredicateName) bool {
 	if _, found := sp[podID]; !found {
 		return false
@@ -132,6 +136,10 @@ func evaluateTaskOnPrePredicate(task *pod_info.PodInfo, k8sPredicates k8s_intern
 		nodes, status := predicate.PreFilter(task.Pod)
 		if status.IsSkip() {
 			skipPredicates.Add(task.UID, name)
+		} else {
+			// an earlier evaluation of this task in the session may have said Skip: pods placed since
+			// then (e.g. one with a required anti-affinity) can make the filter necessary
+			skipPredicates.Remove(task.UID, name)
 		}
 
 		if status.AsError() != nil {
